@@ -10,7 +10,7 @@ from vpkit import common, zoo
 
 ID = "C03"
 N = {"quick": 320, "thorough": 8000}
-BUDGET = {"quick": 240.0, "thorough": 1200.0}
+BUDGET = {"quick": 240.0, "thorough": 700.0}
 RULE = ("case = (input with historical / internal / contemporaneous samples, method, "
         "constr_iterations, min_branch_length, mutation-rate scale that pushes children above or "
         "below their sample parent); distinct by (topology hash, options); non-trivial = at "
